@@ -22,10 +22,12 @@
    lambdas: Fragment.s2_block; no class, no comprehension) soundness and precision are proved per occurrence:
    every NameError read is reported on its line, and every reported (line, name) is a failing read on that line -
    a NameError or an UnboundLocalError-like failure (exactness is false there: C05_missing_exact_refuted_stage2).
-   Class and comprehension scopes are covered by correspondence + execution oracle only. *)
+   The same two statements on the stage-3 fragment (stage 2 + comprehensions, nested and inside functions / lambdas:
+   Fragment.s3_block; inside a comprehension no lambda, and no nested scope in the iterable of its first generator).
+   Class scopes are covered by correspondence + execution oracle only. *)
 From Coq Require Import NArith List Bool.
 From Verif Require Import Scope.PySyntax Scope.Finder Scope.PySem Scope.Fragment Scope.FinderProofs Scope.UnusedProofs
-                          Scope.Stage2Final Scope.Stage2Unused.
+                          Scope.Stage2Final Scope.Stage2Unused Scope.Stage3Final.
 Import ListNotations.
 
 (* stage 1, per occurrence: pyflyby reports a name rooted at n on line l  <->  the read of n on line l
@@ -293,3 +295,58 @@ Theorem C05_unused_sound_refuted_local_import :
                         SImport 4 [([92], None)]; SExpr 5 (EOp [ELoad 91 []])]].
 Proof. unfold unused_sound_at. intro H. apply (H 4%nat ([92], [92])) with (ln := 3%nat) (n := 92); vm_compute; auto. Qed.
 Print Assumptions C05_unused_sound_refuted_local_import.
+
+
+(* ---------- stage 3: comprehensions (Fragment.s3_block) ----------
+   A comprehension may stand wherever an expression may - at module level, in function and lambda bodies, defaults,
+   decorators, annotations - and comprehensions nest.  Restrictions: inside a comprehension there is no lambda; the iterable
+   of the first generator contains no lambda and no comprehension (pyflyby visits it inside the comprehension's scope,
+   Python evaluates it outside: C05_missing_sound_refuted_firstiter is what happens to a deferred read there).
+   Proof (Scope/Stage3*.v): the open comprehension scopes extend the stage-2 stack; the levels below keep their stage-2
+   invariant with those scopes listed as "being filled"; a small invariant relates each comprehension scope to its
+   FComp frame; loads are re-proved for the extended stack (immediate at module level, deferred in functions - the
+   recorded stack then holds the enclosing function's scope by reference and a copy of the innermost comprehension scope). *)
+Theorem C05_missing_sound_stage3 : forall bi ns p, s3_block p = true -> star_free bi ns = true ->
+  forall l n, In (l, n, Unbound) (pysem bi ns p) -> exists a, In (l, n :: a) (fst (finder bi ns false p)).
+Proof. exact s3_missing_sound. Qed.
+Print Assumptions C05_missing_sound_stage3.
+Theorem C05_missing_precise_stage3 : forall bi ns p, s3_block p = true -> star_free bi ns = true ->
+  forall l n a, In (l, n :: a) (fst (finder bi ns false p)) ->
+  In (l, n, Unbound) (pysem bi ns p) \/ In (l, n, UnboundLocal) (pysem bi ns p).
+Proof. exact s3_missing_precise. Qed.
+Print Assumptions C05_missing_precise_stage3.
+Theorem C05_find_missing_sound_stage3 : forall bi ns p l n, s3_block p = true -> star_free bi ns = true ->
+  In (l, n, Unbound) (pysem bi ns p) -> exists a, In (n :: a) (find_missing bi ns p).
+Proof. exact s3_find_missing_sound. Qed.
+Print Assumptions C05_find_missing_sound_stage3.
+Theorem C05_find_missing_precise_stage3 : forall bi ns p n a, s3_block p = true -> star_free bi ns = true ->
+  In (n :: a) (find_missing bi ns p) ->
+  exists l, In (l, n, Unbound) (pysem bi ns p) \/ In (l, n, UnboundLocal) (pysem bi ns p).
+Proof. exact s3_find_missing_precise. Qed.
+Print Assumptions C05_find_missing_precise_stage3.
+
+(* the first-iterable witness above is exactly what s3 excludes: a lambda inside the iterable of the first generator *)
+Example C05_firstiter_outside_stage3 : s3_block W_firstiter = false.
+Proof. reflexivity. Qed.
+
+(* non-vacuity:
+     x = [a for a in b if a.c]                      line 1: b is read in the enclosing scope: unbound
+     def f(p):                                      line 2
+         [q + p + r for q in p for r in q if s]     line 3: s unbound (deferred, found nowhere in the end)
+     z = [u for t in x for u in [w for w in t]]     line 4: a nested comprehension
+     [v for v in v]                                 line 5: the iterable v is not the target v                  *)
+Definition P_stage3 : program :=
+  [SAssign 1 [TName 110] (EComp [Gen (ELoad 112 []) (TName 111) [ELoad 111 [113]]] [ELoad 111 []]);
+   SDef 2 114 [] (Params [] [(115, None)] None [] None [] []) None
+     [SExpr 3 (EComp [Gen (ELoad 115 []) (TName 116) []; Gen (ELoad 116 []) (TName 117) [ELoad 118 []]] [EOp [ELoad 116 []; ELoad 115 []; ELoad 117 []]])];
+   SAssign 4 [TName 119] (EComp [Gen (ELoad 110 []) (TName 121) []; Gen (EComp [Gen (ELoad 121 []) (TName 122) []] [ELoad 122 []]) (TName 120) []] [ELoad 120 []]);
+   SExpr 5 (EComp [Gen (ELoad 123 []) (TName 123) []] [ELoad 123 []])].
+Example C05_nonvacuous_stage3 :
+  s3_block P_stage3 = true /\ s2_block P_stage3 = false /\
+  fst (finder [] [[]] false P_stage3) = [(1%nat, [112]); (3%nat, [118]); (5%nat, [123])] /\
+  pysem [] [[]] P_stage3 =
+    [(1%nat, 112, Unbound); (1%nat, 111, Bound BOther); (1%nat, 111, Bound BOther); (3%nat, 115, Bound BOther);
+     (3%nat, 116, Bound BOther); (3%nat, 118, Unbound); (3%nat, 116, Bound BOther); (3%nat, 115, Bound BOther);
+     (3%nat, 117, Bound BOther); (4%nat, 110, Bound BOther); (4%nat, 121, Bound BOther); (4%nat, 122, Bound BOther);
+     (4%nat, 120, Bound BOther); (5%nat, 123, Unbound); (5%nat, 123, Bound BOther)].
+Proof. vm_compute. repeat split. Qed.
